@@ -53,9 +53,9 @@ func items(tier string) []item {
 	repr := []int{0, srvx.CbAccept, srvx.CbClose, 15}
 	// A: every callback combination, one client, the three basic endings
 	for cb := 0; cb < 16; cb++ {
-		d := 1
-		if thorough {
-			d = 2
+		d := 2
+		if thorough && (cb == 0 || cb == 15 || cb == srvx.CbAccept || cb == srvx.CbClose) {
+			d = 3
 		}
 		add(d, mk("A/none", cb, "instant", "none", 0, s1))
 		add(d, mk("A/shutdown@2", cb, "instant", "shutdown", 2, s1))
